@@ -34,10 +34,20 @@ Definition path_join (a b : str) : str :=
    more collapse to one *)
 Definition initial_slashes (p : str) : nat :=
   match p with
-  | 47 :: 47 :: 47 :: _ => 1%nat
-  | 47 :: 47 :: _ => 2%nat
-  | 47 :: _ => 1%nat
-  | _ => 0%nat
+  | c1 :: r1 =>
+    if c1 =? SEP then
+      match r1 with
+      | c2 :: r2 =>
+        if c2 =? SEP then
+          match r2 with
+          | c3 :: _ => if c3 =? SEP then 1%nat else 2%nat
+          | [] => 2%nat
+          end
+        else 1%nat
+      | [] => 1%nat
+      end
+    else 0%nat
+  | [] => 0%nat
   end.
 
 (* posixpath.py:395-402, one iteration of the component loop; the stack
